@@ -23,3 +23,6 @@ pub(crate) trait PathLocator {
         source: &Path,
     ) -> Result<PathBuf, DarkluaError>;
 }
+
+#[cfg(feature = "verif-hooks")]
+pub(crate) use path_iterator::find_require_paths;
